@@ -49,7 +49,7 @@ pub fn cases(rng: &mut Rng, tier: &str) -> (Vec<Case>, bool) {
     let mut cases = vec![];
     // very long lines typed WITHOUT blanks: LIST puts a blank between tokens and re-renders DATA items, so the listing is up to
     // 2.5 times as long as what was typed - and is a line like any other for the interpreter that reloads it
-    let sizes: &[usize] = if tier == "thorough" { &[600, 3000, 6000, 12000, 30000] } else { &[600, 6000, 12000] };
+    let sizes: &[usize] = if tier == "thorough" { &[600, 3000, 6000, 12000, 30000] } else { &[600, 6000] };
     for &n in sizes {
         let data = format!("DATA {}", vec!["1"; n].join(","));
         let sum = format!("IF 0 THEN PRINT {}", vec!["1"; n].join("+"));
